@@ -103,6 +103,15 @@ CLAIMED = {
             "(order edges at OrderOffset independent of connected ports, static port after the value inputs).",
             "JSON-Schema semantics are taken from the jsonschema library (the schema is an oracle file, not re-modelled).",
             "DESIGN.md §5 C03"),
+    "C10": ("TLA+ spec ExtensionDefs.tla (extension as state; AddTypeDef/AddOpDef/AddValue; ExtToJson/ExtFromJson): TLC complete "
+            "state graph with OwnerInReqs and RoundTrip + replay of every add order into hugr.ext.Extension (S->C); std library "
+            "compared with specification/std_extensions",
+            "TLC explores every order of adding up to 3 type definitions, 4 operation definitions (mono, polymorphic with existing "
+            "requirements, binary-only, signature+binary) and a value; each path is replayed, the object projected attribute by attribute, "
+            "serialized, reloaded and re-serialized. Every file under specification/std_extensions is byte-compared with the bundled "
+            "copy, loaded, round-tripped, and the typed helpers' definitions and parameter kinds/values are compared with the files.",
+            "No lowering functions; byte identity and helper/definition agreement are binding checks on repository artefacts.",
+            "DESIGN.md §5 C10"),
 }
 
 NOT_YET = "check not built yet in this round (planned: see DESIGN.md §5); nothing is claimed for it until its TLA+ spec and conformance legs exist"
